@@ -143,6 +143,15 @@ impl Scenario for Chain {
         let (vals, filters) = opgen::value_profile(&mut r);
         let nregs = r.urange(2, 6);
         let mut regs: Vec<MVal> = (0..nregs).map(|_| gen::gen_doc(&mut r, &vals, 70).norm()).collect();
+        // one history in six carries a register that is an array of numbers only, drawn from the boundary pools of the
+        // profile (all integer kinds side by side: negative, above i64::MAX, 2^53 +- 1, ...), bare or under a key: the
+        // documents on which a filter or a set function compares numbers of different kinds with each other
+        if r.chance(1, 6) {
+            let n = r.urange(2, 8);
+            let nums = MVal::Arr((0..n).map(|_| gen::gen_number(&mut r, &vals)).collect());
+            let at = r.idx(regs.len());
+            regs[at] = if r.chance(1, 3) { MVal::Obj([(r.pick(gen::KEYS).to_string(), nums)].into_iter().collect()) } else { nums }.norm();
+        }
         // one history in 20,000 carries a document with a payload at the 2^24-byte boundary of the entry length field
         let huge = r.chance(1, 20_000);
         if huge {
